@@ -99,4 +99,9 @@ theorem encodes (pb : Problem) (hwf : WellFormed pb) (P : PuzzleProg) (hP : prog
   cases hP
   exact ⟨encodes_closed pb, C11Grid.keysOk_range _ _ _ (by simp), wt_closed pb⟩
 
+/-- Non-vacuity: a concrete well-formed problem (with a numbered black cell), and its program exists. -/
+example : WellFormed { height := 2, width := 2, problem := [[none, some 1], [none, none]] } ∧
+    ∃ P, program { height := 2, width := 2, problem := [[none, some 1], [none, none]] } = .ok P :=
+  ⟨⟨rfl, by simp⟩, total _ ⟨rfl, by simp⟩⟩
+
 end Cspuz.Proofs.C11ShakashakaP
